@@ -122,9 +122,15 @@ def c08_family(seed, thorough):
         [R('[a-c]+x'), R('[b-d]+x')],
         [R('a[^a]'), R('[^b]b')],
         [R('ab|cd'), R('cd|ef', prio=4)],
+        # ties whose members are separated in declaration order by a lower / higher priority pattern
+        [T('if'), R('[a-z]+'), R('i[a-z]')],
+        [R('[a-z]+', prio=7), R('[a-z0-9]+', prio=3), R('[a-f]+', prio=7)],
+        [R('a+', prio=3), T('aa', prio=9), R('a{2}', prio=3), R('[ab]+', prio=3)],
+        [T('x', prio=5), R('x|y', prio=1), R('[x]', prio=5), R('x?y?z?x', prio=1)],
+        [R('[0-9]+', prio=2), R('[0-9]', prio=6), R('[0-4]', prio=4), R('[0-9]', prio=6)],
     ]
     for i, c in enumerate(cases):
-        mk(i, c, ('amb', 'quick') if i < 14 else ('amb',))
+        mk(i, c, ('amb', 'quick') if (i < 14 or i >= 24) else ('amb',))
     # seeded random small definitions
     rnd = random.Random(1000 + seed)
     atoms = ['a', 'b', 'c', '[ab]', '[a-c]', '[bc]', '.', 'ab', 'bc']
@@ -430,10 +436,55 @@ def c18_cases():
         dd.logos_items_order = list(perm)
         srcs.append(corpus.render_enum(dd, derive_line=''))
     cases.append(('logos-items', srcs))
+    # generic enum: type substitution and source lifetime in either order
+    gitems = ["lifetime = 'a", "type T = &'a str", 'extras = u8', 'skip " +"']
+    cases.append(('logos-items-generic', [
+        f'#[logos({", ".join(p)})]\nenum Tok<\'a, T> {{ #[regex("[a-z]+", |lex| lex.slice())] W(T), #[token("zz")] Z(&\'a str) }}'
+        for p in itertools.permutations(gitems)]))
     items2 = ['skip(" +", priority = 3)', 'utf8 = false', 'extras = u8']
     cases.append(('logos-items-group-first', [f'#[logos({", ".join(p)})]\nenum Tok {{ #[token("zz")] Z }}'
                                               for p in itertools.permutations(items2)]))
     return cases
+
+
+def compile_representatives(name, srcs, rs, summ):
+    """cargo-check one representative per distinct generated code; returns a marker (and sets .last) when some order
+    compiles and another does not"""
+    import os
+    import subprocess
+    from . import build
+    reps = {}
+    for k, x in enumerate(rs):
+        reps.setdefault(x['code_hash'], srcs[k])
+    results = []
+    for i, (h, src) in enumerate(reps.items()):
+        cdir = os.path.join(build.WORK, 'native', f'c18-{hashlib.sha1(name.encode()).hexdigest()[:6]}-{i}')
+        os.makedirs(os.path.join(cdir, 'src'), exist_ok=True)
+        build.write_if_changed(os.path.join(cdir, 'Cargo.toml'), f'[package]\nname = "c18rep"\nversion = "0.0.0"\nedition = "2021"\n'
+                               f'[dependencies]\nlogos = {{ path = "{build.REPO}" }}\n[workspace]\n')
+        lock = os.path.join(build.REPO, 'Cargo.lock')
+        if os.path.exists(lock) and not os.path.exists(os.path.join(cdir, 'Cargo.lock')):
+            build.write_if_changed(os.path.join(cdir, 'Cargo.lock'), open(lock).read())
+        with open(os.path.join(cdir, 'src', 'lib.rs'), 'w') as f:
+            f.write('#![allow(dead_code)]\nuse logos::Logos;\n#[derive(Debug, PartialEq, Clone, Default)]\npub struct E;\n'
+                    '#[derive(Logos, Debug, PartialEq)]\n' + src + '\n')
+        env = dict(build.ENV_BASE, CARGO_TARGET_DIR=os.path.join(build.WORK, 'target-native', 'c18rep'), RUSTFLAGS='-Awarnings')
+        rcx, log = build.run(['cargo', 'check', '--offline'], cwd=cdir, env=env)
+        errs = [l for l in log.splitlines() if l.startswith('error')]
+        results.append((rcx == 0, src, errs[0] if errs else ''))
+    summ['representatives_compiled'] = [r[0] for r in results]
+    compile_representatives.last = None
+    oks = [r for r in results if r[0]]
+    bads = [r for r in results if not r[0]]
+    if oks and bads:
+        compile_representatives.last = (oks[0][1], bads[0][1], bads[0][2])
+        return True
+    if not bads:
+        summ['note'] = 'all representatives compile although the generated code differs between orders'
+    return None
+
+
+compile_representatives.last = None
 
 
 def ord_items_def(order=None, ident='ord_items'):
@@ -498,6 +549,13 @@ def c18(tier, seed):
                                     evidence_hook=hook, **tp))
             summary[-1]['representatives_checked_by_solver'] = len(rep_defs)
             summary[-1]['solver'] = {k: hook.get('coverage', {}).get(k) for k in ('evaluations', 'queries_discharged', 'solver_s')}
+        elif statuses == {'accepted'} and len(hashes) > 1 and compile_representatives(name, srcs, rs, summary[-1]) is not None:
+            # the generated code depends on the order: compile one representative per distinct output with rustc
+            ok_src, bad_src, err = compile_representatives.last
+            info = {'property': 'C18', 'class': name, 'compiles': ok_src, 'fails_to_compile': bad_src, 'rustc_error': err}
+            rc = max(rc, known_or_violation('C18', {'class': name, 'what': 'order-dependent-compile-error'},
+                                            f'{name}: one item order compiles, another does not: {bad_src.splitlines()[0][:110]} -> {err[:120]}',
+                                            info, ev, 'rustc-' + hashlib.sha1(name.encode()).hexdigest()[:8]))
         elif statuses == {'accepted'} and len(hashes) > 1:
             # outputs differ textually: equivalence would need the C01 obligation; report for inspection
             info = {'property': 'C18', 'class': name, 'note': 'generated code differs between argument orders',
